@@ -251,6 +251,12 @@ def run_history(hist, acc, with_pid0=False, caller_pid=None):
                             viols.append(("pid0_signal_not_refused", ctx))
                         if any(e[0] == "kill" and e[1] == 0 and e[2] != 0 for e in rec["events"]):
                             viols.append(("pid0_signalled", ctx))
+                    else:
+                        # the kernel reads "0" in setpriority/ioprio_set/sched_setaffinity/prlimit as "the calling process":
+                        # a setting asked of the PID 0 object must not land on the program itself
+                        acc.count("setters_on_pid0_object")
+                        if any(e[1] != 0 for e in real_events):
+                            viols.append((f"pid0_setting_reached_the_caller:{op[2]}", ctx))
                     continue
                 if rec["model_alive"]:
                     acc.count("signals_on_live_target")
@@ -325,6 +331,9 @@ def pid0_histories():
             out.append([("new", 0), ("sig", 0, k, signo)])
             out.append([("new", 0), ("isrun", 0), ("sig", 0, k, signo)])
             out.append([("new", 0), ("iter",), ("sig", 0, k, signo), ("sig", 0, k, signo)])
+    for k, v in (("nice", 5), ("ionice", [2, 3]), ("rlimit", [7, [5, 9]]), ("affinity", [0]), ("affinity", [])):
+        out.append([("new", 0), ("set", 0, k, v)])
+        out.append([("iter", "keep"), ("set", 0, k, v), ("isrun", 0), ("set", 0, k, v)])
     for neg in (-1, -2, -7, -2**31, -2**70):
         out.append([("newneg", neg), ("spawn", 7, False), ("new", 7), ("sig", 0, "kill", None)])
     return out
